@@ -455,18 +455,21 @@ def _write_external_data(
         os.path.realpath(requested_path) if os.path.islink(requested_path) else requested_path
     )
     destination_dir = os.path.dirname(destination_path) or "."
-    temporary_dir = tempfile.mkdtemp(
-        dir=destination_dir,
-        prefix=f".{os.path.basename(destination_path)}.",
-    )
-    temporary_path = os.path.join(temporary_dir, os.path.basename(destination_path))
-
+    # Collect the overwritten tensors before anything is created on disk: evaluating
+    # tensor.path / os.path.samefile can raise (e.g. ValueError for a location with an
+    # embedded null byte), and nothing would remove the temporary directory then.
     overwritten_tensors = [
         tensor
         for tensor in tensors
         if isinstance(tensor, _core.ExternalTensor)
         and _paths_refer_to_same_file(tensor.path, destination_path)
     ]
+    temporary_dir = tempfile.mkdtemp(
+        dir=destination_dir,
+        prefix=f".{os.path.basename(destination_path)}.",
+    )
+    temporary_path = os.path.join(temporary_dir, os.path.basename(destination_path))
+
     try:
         writer = _ExternalDataWriter(
             tensors,
